@@ -1,5 +1,5 @@
 /* Bounded harnesses for hwloc_bitmap_sscanf / list_sscanf / taskset_sscanf on an ARBITRARY NUL-terminated
- * string of at most SLEN characters (every byte value): returns 0 or -1, no out-of-bounds access, no failed
+ * string of at most SLEN characters (every byte value, allocated with its exact size): returns 0 or -1, no out-of-bounds access, no failed
  * assertion, and the destination still satisfies the representation invariant. */
 #ifndef SLEN
 #define SLEN 6
@@ -19,9 +19,9 @@ static struct hwloc_bitmap_s *verif_mkdst(void)
   s->infinite = nondet_bool();
   return s;
 }
-#define PARSER_HARNESS(fn) void hp_##fn(void) { struct verif_str str = nondet_str(); struct hwloc_bitmap_s *set; int r; \
-  VERIF_GHOSTS(); str.c[SLEN] = 0; set = verif_mkdst(); \
-  r = fn(set, str.c); \
+#define PARSER_HARNESS(fn) void hp_##fn(void) { char *str; struct hwloc_bitmap_s *set; int r; \
+  VERIF_GHOSTS(); str = verif_exact_string(SLEN); set = verif_mkdst(); \
+  r = fn(set, str); \
   __CPROVER_assert(r == 0 || r == -1, "returns 0 or -1"); \
   __CPROVER_assert(set->ulongs_count >= 1 && set->ulongs_count <= set->ulongs_allocated && (set->infinite == 0 || set->infinite == 1), "destination satisfies the representation invariant"); \
   VERIF_CANARY(); }
